@@ -284,12 +284,14 @@ pub fn size(a: &HashMap<String, String>) -> i32 {
             None => continue,
         };
         let ms: Vec<Option<u32>> = vec![Some((l as u32).saturating_sub(1).max(1)), Some(l as u32), Some(l as u32 + 1), Some(1), Some(u32::MAX), None];
-        for m in ms {
+        for (m, auth) in ms.iter().flat_map(|m| [(*m, false), (*m, true)]) {
             let run = match sink.mine() {
                 Some(r) => r,
                 None => continue,
             };
             let mut steps = vec![reset("size", Some(2), m)];
+            // second variant: the limits arrive in a CONNACK that concludes an extended authentication
+            steps[0]["auth"] = json!(auth);
             steps.push(json!({"a": "call", "op": 1, "h": 0, "spec": spec}));
             steps.push(settle_wake());
             let kind = spec["kind"].as_str().unwrap_or("");
@@ -357,6 +359,7 @@ pub fn quotafill(a: &HashMap<String, String>) -> i32 {
             }
             let mut rng = StdRng::seed_from_u64(seed * 31 + ri as u64 * 7 + variant);
             let mut steps = vec![reset("quotafill", *r, None)];
+            steps[0]["auth"] = json!(run % 2 == 1);
             let mut next = 1usize;
             let mut open: Vec<(usize, u8, u8)> = vec![]; // op, qos, stage
             for round in 0..2 {
@@ -728,8 +731,8 @@ pub fn reconn(a: &HashMap<String, String>) -> i32 {
                         Some(x) => x,
                         None => continue,
                     };
-                    let p1 = Params { fam: "reconn".into(), r: r1, m: m1, sei_connect: Some(sei), ..Default::default() };
-                    let p2 = Params { fam: "reconn".into(), r: r2, m: m2, sei_connect: Some(sei), ..Default::default() };
+                    let p1 = Params { fam: "reconn".into(), r: r1, m: m1, sei_connect: Some(sei), auth: run % 4 >= 2, ..Default::default() };
+                    let p2 = Params { fam: "reconn".into(), r: r2, m: m2, sei_connect: Some(sei), auth: run % 2 == 1, ..Default::default() };
                     let mut steps = vec![p1.to_json()];
                     // `pre` exchanges outstanding when the connection is lost (the second one between its QoS 2 phases)
                     if pre >= 1 {
@@ -797,6 +800,168 @@ pub fn reconn(a: &HashMap<String, String>) -> i32 {
                     sink.run_script(run, steps, seed);
                 }
             }
+        }
+    }
+    sink.finish();
+    0
+}
+
+// ---------------------------------------------------------------------------------------------
+// The same Context set up again after its connection ended at an awkward point (C08, C09, C13, C03): in the middle of an
+// inbound packet, with packets buffered behind the one that ended run(), or with a write fault exactly while an
+// acknowledgement was being written. Nothing of the old connection - unread bytes, an unsent acknowledgement - may leak into
+// the new one; what is session state (an inbound QoS 2 identifier already handed to the application) must survive.
+
+pub fn reuse(a: &HashMap<String, String>) -> i32 {
+    let mut sink = Sink::new(a);
+    let seed = seed_of(a);
+    let in_pub = |qos: u8, id: u16, tag: &str, dup: u8| json!({"t": "PUBLISH", "qos": qos, "id": id, "dup": dup, "topic": format!("in/{}", tag), "payload": tag, "sids": [{"sub": 1}]});
+    let endings = ["eof-mid-packet", "eof-mid-header", "buffered-behind-disconnect", "wrerr-puback", "wrerr-pubrec", "wrerr-pubcomp", "rderr-mid-packet", "eof-clean"];
+    for ending in endings {
+        for (sei, secs, mark) in [(u32::MAX, 0u64, true), (0u32, 0, true), (u32::MAX, 0, false)] {
+            for twice in [false, true] {
+                let run = match sink.mine() {
+                    Some(x) => x,
+                    None => continue,
+                };
+                let p = Params { fam: "reuse".into(), r: Some(5), sei_connect: Some(sei), ..Default::default() };
+                let mut steps = vec![p.to_json()];
+                steps.push(json!({"a": "call", "op": 1, "h": 0, "spec": {"kind": "sub", "filters": [{"f": "f/1", "qos": 2}]}}));
+                steps.push(settle_wake());
+                steps.push(json!({"a": "pkt", "pk": {"t": "SUBACK", "id": {"op": 1}, "rcs": [2]}}));
+                steps.push(settle_wake());
+                steps.push(json!({"a": "pkt", "pk": in_pub(1, 3, "a", 0)}));
+                steps.push(settle_wake());
+                let rounds = if twice { 2 } else { 1 };
+                for round in 0..rounds {
+                    let id5 = 5 + round as u16;
+                    match ending {
+                        "eof-mid-packet" | "rderr-mid-packet" => {
+                            // the first bytes of a PUBLISH (fixed header, length, part of the topic), then the transport ends
+                            steps.push(json!({"a": "raw", "hex": "321400"}));
+                            steps.push(settle_wake());
+                            steps.push(json!({"a": "raw", "hex": "04696e"}));
+                            steps.push(settle_wake());
+                            steps.push(json!({"a": if ending == "eof-mid-packet" { "eof" } else { "rderr" }}));
+                        }
+                        "eof-mid-header" => {
+                            // one byte of a packet whose remaining length takes two bytes
+                            steps.push(json!({"a": "raw", "hex": "30"}));
+                            steps.push(settle_wake());
+                            steps.push(json!({"a": "raw", "hex": "9d"}));
+                            steps.push(settle_wake());
+                            steps.push(json!({"a": "eof"}));
+                        }
+                        "buffered-behind-disconnect" => {
+                            steps.push(json!({"a": "pkts", "pks": [{"t": "DISCONNECT", "rc": 0x8b}, in_pub(1, 4, "lost", 0), {"t": "PINGRESP"}], "cuts": []}));
+                        }
+                        "wrerr-puback" => {
+                            steps.push(json!({"a": "wrmode", "m": "err", "k": 0}));
+                            steps.push(json!({"a": "pkt", "pk": in_pub(1, id5, "w1", 0)}));
+                        }
+                        "wrerr-pubrec" => {
+                            steps.push(json!({"a": "wrmode", "m": "err", "k": 0}));
+                            steps.push(json!({"a": "pkt", "pk": in_pub(2, id5, "w2", 0)}));
+                        }
+                        "wrerr-pubcomp" => {
+                            steps.push(json!({"a": "pkt", "pk": in_pub(2, id5, "w3", 0)}));
+                            steps.push(settle_wake());
+                            steps.push(json!({"a": "wrmode", "m": "err", "k": 0}));
+                            steps.push(json!({"a": "pkt", "pk": {"t": "PUBREL", "id": id5, "rc": 0}}));
+                        }
+                        _ => steps.push(json!({"a": "eof"})),
+                    }
+                    steps.push(settle_wake());
+                    if mark {
+                        steps.push(json!({"a": "markdisc", "secs": secs}));
+                    }
+                    let mut rc = p.to_json();
+                    rc["a"] = json!("reconnect");
+                    steps.push(rc);
+                    steps.push(poll_ctx());
+                    steps.push(settle_wake());
+                    // on the new connection: the broker re-sends what it had not seen acknowledged (DUP set), then new traffic
+                    match ending {
+                        "wrerr-puback" => steps.push(json!({"a": "pkt", "pk": in_pub(1, id5, "w1", 1)})),
+                        "wrerr-pubrec" => steps.push(json!({"a": "pkt", "pk": in_pub(2, id5, "w2", 1)})),
+                        "wrerr-pubcomp" => steps.push(json!({"a": "pkt", "pk": {"t": "PUBREL", "id": id5, "rc": 0}})),
+                        _ => {}
+                    }
+                    steps.push(settle_wake());
+                    steps.push(json!({"a": "pkt", "pk": in_pub(1, 7 + round as u16, "n1", 0)}));
+                    steps.push(settle_wake());
+                    if ending == "wrerr-pubrec" {
+                        steps.push(json!({"a": "pkt", "pk": in_pub(2, id5, "w2", 1)}));
+                        steps.push(settle_wake());
+                        steps.push(json!({"a": "pkt", "pk": {"t": "PUBREL", "id": id5, "rc": 0}}));
+                        steps.push(settle_wake());
+                        steps.push(json!({"a": "pkt", "pk": in_pub(2, id5, "fresh", 0)}));
+                        steps.push(settle_wake());
+                        steps.push(json!({"a": "pkt", "pk": {"t": "PUBREL", "id": id5, "rc": 0}}));
+                        steps.push(settle_wake());
+                    }
+                    steps.push(json!({"a": "call", "op": 20 + round, "h": 0, "spec": {"kind": "ping"}}));
+                    steps.push(settle_wake());
+                    steps.push(json!({"a": "pkt", "pk": {"t": "PINGRESP"}}));
+                    steps.push(settle_wake());
+                }
+                steps.push(settle());
+                sink.run_script(run, steps, seed);
+            }
+        }
+    }
+    sink.finish();
+    0
+}
+
+// ---------------------------------------------------------------------------------------------
+// C07 with a lagging consumer: one stream is not polled while many messages arrive for it (another one is polled
+// promptly); every message must still be there, in order, when it is finally drained, and later messages keep arriving.
+
+pub fn backlog(a: &HashMap<String, String>) -> i32 {
+    let thorough = tier_of(a);
+    let mut sink = Sink::new(a);
+    let seed = seed_of(a);
+    let sizes: Vec<usize> = if thorough { vec![1, 31, 32, 33, 63, 64, 65, 66, 127, 128, 129, 200, 255, 256, 257, 1000, 1025, 5000] } else { vec![1, 33, 64, 65, 66, 129, 257, 1025] };
+    for n in sizes {
+        for qmix in 0..3u8 {
+            let run = match sink.mine() {
+                Some(x) => x,
+                None => continue,
+            };
+            let mut steps = vec![reset("backlog", None, None)];
+            for k in 1..=2usize {
+                steps.push(json!({"a": "call", "op": k, "h": 0, "spec": {"kind": "sub", "filters": [{"f": format!("f/{}", k), "qos": 2}]}}));
+            }
+            steps.push(settle_wake());
+            for k in 1..=2usize {
+                steps.push(json!({"a": "pkt", "pk": {"t": "SUBACK", "id": {"op": k}, "rcs": [2]}}));
+            }
+            steps.push(settle_wake());
+            for i in 0..n {
+                let qos = match qmix {
+                    0 => 0,
+                    1 => (i % 2) as u8,
+                    _ => (i % 3) as u8,
+                };
+                let id = 100 + (i % 50) as u16;
+                steps.push(json!({"a": "pkt", "pk": {"t": "PUBLISH", "qos": qos, "id": id, "dup": 0, "topic": format!("b/{}", i), "payload": format!("m{}", i), "sids": [{"sub": 1}]}}));
+                if qos == 2 {
+                    steps.push(json!({"a": "pkt", "pk": {"t": "PUBREL", "id": id, "rc": 0}}));
+                }
+                if i % 7 == 3 {
+                    steps.push(json!({"a": "pkt", "pk": {"t": "PUBLISH", "qos": 0, "id": 0, "dup": 0, "topic": format!("o/{}", i), "payload": "o", "sids": [{"sub": 2}]}}));
+                }
+                // only the context and the second stream are polled: the first stream lags behind
+                steps.push(poll_ctx());
+                if i % 7 == 3 {
+                    steps.push(json!({"a": "poll", "t": "st", "k": 2}));
+                }
+            }
+            steps.push(settle());
+            steps.push(json!({"a": "pkt", "pk": {"t": "PUBLISH", "qos": 1, "id": 9, "dup": 0, "topic": "b/late", "payload": "late", "sids": [{"sub": 1}]}}));
+            steps.push(settle());
+            sink.run_script(run, steps, seed);
         }
     }
     sink.finish();
@@ -1608,7 +1773,7 @@ pub fn endings(a: &HashMap<String, String>) -> i32 {
     let thorough = tier_of(a);
     let mut sink = Sink::new(a);
     let seed = seed_of(a);
-    let states = ["idle", "ops", "midq2", "queued", "recunpolled"];
+    let states = ["idle", "ops", "midq2", "queued", "recunpolled", "recunpolled-drop"];
     let mut causes: Vec<Value> = vec![];
     for behind in 0..3usize {
         for after in 0..2usize {
@@ -1673,7 +1838,7 @@ pub fn endings(a: &HashMap<String, String>) -> i32 {
                     next = 5;
                     live_ops = vec![2, 3, 4];
                 }
-                "recunpolled" => {
+                "recunpolled" | "recunpolled-drop" => {
                     // a QoS 2 publish whose PUBREC the actor has handled but whose future has not been polled since
                     steps.push(json!({"a": "call", "op": 1, "h": 0, "spec": pub_spec(1, 2, 2)}));
                     steps.push(json!({"a": "call", "op": 2, "h": 0, "spec": pub_spec(2, 1, 2)}));
@@ -1767,6 +1932,12 @@ pub fn endings(a: &HashMap<String, String>) -> i32 {
                     steps.push(json!({"a": "drop", "t": "h", "k": 0}));
                 }
                 _ => {}
+            }
+            if st == "recunpolled-drop" {
+                // the context ends and is dropped before the caller between its QoS 2 phases is polled again
+                steps.push(poll_ctx());
+                steps.push(poll_ctx());
+                steps.push(json!({"a": "drop", "t": "ctx", "k": 0}));
             }
             steps.push(settle());
             steps.push(json!({"a": "drop", "t": "ctx", "k": 0}));
